@@ -61,6 +61,13 @@ def _no_leading_zero_after_first(text) -> bool:
     return True
 
 
+def _strip0(rel):
+    rel = list(rel)
+    while len(rel) > 1 and rel[-1] == 0:
+        rel.pop()
+    return rel
+
+
 def pep440_same(vals, tag_i) -> bool:
     st = state(vals, tag_i)
     vinfo = version.V2VersionInfo(**st)
@@ -71,7 +78,12 @@ def pep440_same(vals, tag_i) -> bool:
         return True          # the property speaks about versions that are themselves PEP 440 versions
     qtext = v2version.format_version(vinfo, Q)
     w = sv.Version(qtext)    # InvalidVersion here is a violation
-    if w._version != v._version or w._key != v._key:
+    # equal as PEP 440 versions: same epoch, same release numbers up to insignificant trailing zeros ('1.10.dev0' for 'v1.10.0-dev':
+    # an optional part that is zero may be left out once the tag has moved to [PYTAGNUM]), same pre / post / dev segment and number
+    a, b = v._version, w._version
+    if (a.epoch, a.pre, a.post, a.dev, a.local) != (b.epoch, b.pre, b.post, b.dev, b.local):
+        return False
+    if _strip0(a.release) != _strip0(b.release) or w._key != v._key:
         return False
     m = QRE.match(qtext)
     if m is None or len(m.group()) != len(qtext):
